@@ -43,6 +43,8 @@ def _sound(case):
 def valid_case(case):
     if case.get('kind') == 'cmp_threads':
         return len(case['versions']) >= 2
+    if case.get('kind') == 'timeframe2':
+        return len(case['updates']) >= 1
     return all(len(case[k][0]) >= 2 or not case[k][1] for k in ('a', 'b', 'c') if k in case)
 
 
@@ -120,6 +122,25 @@ def eval_case(case):
         if bw != (_cmp(product, a, b) <= 0):
             fails.append(['between-versions-upper-bound', '%r %r' % (a, b)])
         return mkres(case, nt=nt, classes=classes, fails=fails)
+    if k == 'timeframe2':
+        # compatibility ranges: every algorithm contributes "since" and "disabled in" versions for several products in one
+        # string; per product the range is [numerically largest since, numerically smallest till]
+        from ssh_audit.timeframe import Timeframe
+        PFX = {'OpenSSH': '', 'Dropbear SSH': 'd', 'libssh': 'l1'}
+        tf = Timeframe()
+        for since, till in case['updates']:
+            tf.update([','.join(PFX[p] + v for p, v in since), ','.join(PFX[p] + v for p, v in till)], True)
+        for p in PFX:
+            ss = [v for since, _ in case['updates'] for q, v in since if q == p]
+            ts = [v for _, till in case['updates'] for q, v in till if q == p]
+            want_from = max(ss, key=refmodel.vtuple) if ss else None
+            want_till = min(ts, key=refmodel.vtuple) if ts else None
+            got_from, got_till = tf.get_from(p, True), tf.get_till(p, True)
+            if (got_from is None) != (want_from is None) or (got_from is not None and refmodel.vtuple(got_from) != refmodel.vtuple(want_from)):
+                fails.append(['compat-range-from-multi-product', '%s: updates %r -> since %r, numeric maximum is %r' % (p, case['updates'], got_from, want_from)])
+            if (got_till is None) != (want_till is None) or (got_till is not None and refmodel.vtuple(got_till) != refmodel.vtuple(want_till)):
+                fails.append(['compat-range-till-multi-product', '%s: updates %r -> till %r, numeric minimum is %r' % (p, case['updates'], got_till, want_till)])
+        return mkres(case, nt=True, classes=['timeframe2'], fails=fails[:3])
     if k == 'cmp_threads':
         # the same judgements made by several threads at once (a multi-target run compares versions from every worker):
         # each thread owns one server version and compares it with all others; every answer must be the one a single thread gets
@@ -298,6 +319,12 @@ def strat_triple_close():
     return st.tuples(st.sampled_from(sorted(PATCHES)), st.sampled_from([0, 7, 9, 10, 2020]), st.lists(st.sampled_from(COMPONENTS), min_size=3, max_size=3), st.lists(st.integers(0, 2), min_size=3, max_size=3)).map(mk)
 
 
+def strat_timeframe2():
+    prod = st.sampled_from(['OpenSSH', 'Dropbear SSH', 'libssh'])
+    entry = st.lists(st.tuples(prod, ver_st()), min_size=0, max_size=3, unique_by=lambda t: t[0]).map(lambda l: [list(x) for x in l])
+    return st.fixed_dictionaries({'kind': st.just('timeframe2'), 'updates': st.lists(st.tuples(entry, entry).map(list), min_size=1, max_size=5)})
+
+
 def strat_timeframe():
     return st.fixed_dictionaries({'kind': st.just('timeframe'), 'product': st.sampled_from(sorted(PATCHES)), 'since': st.lists(ver_st(), min_size=1, max_size=5)})
 
@@ -328,6 +355,7 @@ def run(ctx):
     ctx.hyp('strat_triple', 10000 * f, label=3)
     ctx.hyp('strat_triple_close', 10000 * f, label=4)
     ctx.hyp('strat_timeframe', 5000 * f, label=5)
+    ctx.hyp('strat_timeframe2', 5000 * f, label=8)
     # CLI level: banners at versions around every first-appeared version of each product and at multi-digit versions
     from ssh_audit.ssh2_kexdb import SSH2_KexDB
     vs = {p: set() for p in BANNER_FMT}
